@@ -22,7 +22,16 @@ BUDGET = {
 
 def strategy(tier):
     nmax = 10 if tier == "quick" else 30
-    return supcase.sup_case(nmax=nmax, kinds=("sup",))
+    small = supcase.sup_case(nmax=nmax, kinds=("sup",))
+    # a few large training sets (heaps several levels deep, long optimum paths)
+    big = supcase.sup_case(nmax=80, nmin=40, kinds=("sup",), modes=("pre",), wmode="tiefree")
+
+    @st.composite
+    def mix(draw):
+        # (st.one_of collapses repeated alternatives, hence an explicit weight)
+        return draw(big) if draw(st.integers(0, 39)) == 0 else draw(small)
+
+    return mix()
 
 
 def enumerate_cases(tier):
@@ -79,5 +88,5 @@ def check_case(case):
         cl.append("path>=2arcs")
     if tie:
         cl.append("ties")
-    cl.append("n<=6" if case["nt"] <= 6 else "n>6")
+    cl.append("n<=6" if case["nt"] <= 6 else ("n>6" if case["nt"] < 40 else "n>=40"))
     return Outcome.ok(nontrivial=depth2 or tie, classes=cl)
